@@ -6,6 +6,8 @@ sid, wt, prop, tier, needs, reported = sys.argv[1:7]
 dst = f"/verif/seeded/{sid}"
 os.makedirs(dst, exist_ok=True)
 for f in os.listdir(f"{wt}/seed"):
+    if os.path.isdir(f"{wt}/seed/{f}"):
+        continue  # tooling a sub-agent left behind: the change, its demonstration and README are plain files
     shutil.copy(f"{wt}/seed/{f}", f"{dst}/{f}")
 base = subprocess.run(["git", "-C", wt, "rev-parse", "--short", "HEAD"], capture_output=True, text=True).stdout.strip()
 files = subprocess.run(["git", "-C", wt, "diff", "--name-only", "--", ".", ":!seed"], capture_output=True, text=True).stdout.split()
